@@ -1,7 +1,7 @@
 #!/bin/bash
 # usage: seed_confirm2.sh <seed id>: confirm /verif/seeded/<id>/patch.diff in the scratch worktree /tmp/seed/wt-confirm (at /repo HEAD)
 set -u
-SID=$1; D=/verif/seeded/$SID; WT=/tmp/seed/wt-confirm
+SID=$1; D=/verif/seeded/$SID; WT=${SEED_WT:-/tmp/seed/wt-confirm}
 cd $WT || exit 2
 git checkout -q -- . ; git clean -fdq -e target
 DEMO_CMD=$(python3 -c "import json;print(json.load(open('$D/meta.json'))['demo_cmd'])" | sed "s#/tmp/seed/wt-[A-Z0-9]*#$WT#g; s#/tmp/seed/out-\([A-Z0-9]*\)/\(m[0-9]\)#/verif/seeded/\1-\2#g")
